@@ -9,16 +9,22 @@
    objects as mappings with string keys, arrays as sequences, strings unchanged, every RFC 8259 number as the
    i64 integer or the exact decimal float it denotes, true/false/null as booleans and null.
 
-   WHAT IS NOT PROVED HERE (said precisely): the text -> tokens half, i.e. that the scanner model turns every
-   serialisation of v (any insignificant spaces, tabs, LF, CR around the tokens; nesting below 256, the u8 flow
-   level of the scanner; \u escapes that are not surrogate halves) into [wrap (json_tokens v)] with the escapes of
-   strings decoded.  That half is FALSE on the unchanged tree for one class of texts — a ':' followed only by
-   TAB(s) and then a number or literal, see [C13_text_refuted] — and is otherwise checked dynamically on every
-   run: ./check C13 compares the implementation's real token stream (hx tokens) with the extracted [json_tokens]
-   of the generating value, and the loaded data with the extracted [yaml_of_json] (oracle [c13_impl_ok]). *)
-From Coq Require Import List NArith ZArith Bool.
+   THE SCANNER HALF (text -> tokens), Proofs/JsonScanBase.v, JsonScanTok.v, JsonScanStr.v, JsonScanPlain.v, JsonWords.v,
+   JsonScanRun.v, JsonScanTop.v: symbolic execution of the scanner model (Model/SFetch.v, SScalar.v, SPrim.v over the string
+   input) on EVERY serialisation of every JSON value nested less than 256 deep (json_doc_text of Spec/Json.v: any insignificant
+   space / TAB / LF / CR / CR LF before and after every token, strings with raw characters, two-character escapes and \uXXXX
+   escapes of scalar values, numbers and literals as plain words, member names followed by ':' directly or after whitespace):
+   the scanner delivers exactly StreamStart . json_tokens v . StreamEnd and ends normally (C13_scanner).
+   Composed with the token level: C13_text_full_proved - run_load s = LDocs [yaml_of_json v] for every such text, over the
+   whole model pipeline scanner + parser + loader + resolver.  The statement is about the MODEL; the tie to the
+   implementation is dynamic: ./check C13 compares the implementation's real token stream (hx tokens) with the extracted
+   [json_tokens] of the generating value, the loaded data with the extracted [yaml_of_json] (oracle [c13_impl_ok]) and with
+   the model pipeline (mx load), on every generated text.
+   Outside the statement: \u escapes that are surrogate halves (pairs are rejected by saphyr: observed, counted), nesting of
+   256 and more (the scanner's u8 flow level: refused). *)
+From Coq Require Import List NArith ZArith Bool Lia.
 Import ListNotations.
-Require Import Parser SBase SFetch Pipe Resolver CoreSchema Loader PipeL Json C02run Drivers JsonProofs.
+Require Import Parser SBase SFetch Pipe Resolver CoreSchema Loader PipeL Json C02run Drivers JsonProofs JsonScanRun JsonScanTop JsonText.
 
 (* Parser + loader (the part of run_load behind the scanner) on the tokens of any JSON value: one document,
    the value.  Duplicate member names: the last value wins ([obj_norm]). *)
@@ -79,7 +85,7 @@ Theorem C13_text_of_tokens : forall s v,
 Proof. exact text_load_of_tokens. Qed.
 Print Assumptions C13_text_of_tokens.
 
-(* ---------------- examples: hypotheses satisfiable, end-to-end instances, the known finding ---------------- *)
+(* ---------------- examples: hypotheses satisfiable, end-to-end instances ---------------- *)
 Definition ex_value : jvalue :=
   JObj [ ([97]%N, JArr [JNum [49]%N; JNum [45;50;46;53;101;51]%N; JBool true; JNull; JStr [120;10;233]%N]);
          ([98]%N, JObj []);
@@ -104,25 +110,103 @@ Example C13_ex_numbers :
 Proof. vm_compute. reflexivity. Qed.
 
 (* ---------------- the text level ----------------
-   The full statement of C13 over the whole model pipeline (scanner + parser + loader), with the class of the
-   known finding excluded.  NOT PROVED: it needs the scanner half (scan_str of every serialisation of v is
-   wrap (json_tokens v) with decoded strings; then C13_text_of_tokens concludes).  Spec/Json.v: json_doc_text,
-   colon_tab. *)
+   The full statement of C13 over the whole model pipeline (scanner + parser + loader + resolver).  Spec/Json.v: json_doc_text
+   (RFC 8259 texts with their insignificant whitespace and escapes).  PROVED. *)
 Definition C13_text_full : Prop := forall v s,
-  json_doc_text v s -> (json_depth v < 256)%nat -> colon_tab Tout s = false -> run_load s = LDocs [yaml_of_json v].
+  json_doc_text v s -> (json_depth v < 256)%nat -> run_load s = LDocs [yaml_of_json v].
+Theorem C13_text_full_proved : C13_text_full.
+Proof. exact text_load. Qed.
+Print Assumptions C13_text_full_proved.
+
+(* Member names pairwise distinct at every level: the mappings are in source order. *)
+Theorem C13_text_ordered : forall v s, json_doc_text v s -> (json_depth v < 256)%nat -> json_distinct v = true ->
+  run_load s = LDocs [yaml_of_json_ordered v].
+Proof. exact text_load_ordered. Qed.
+Print Assumptions C13_text_ordered.
+
+(* The event API (Parser::next_event loop over the scanner, Pipe.run_str): the run is complete and the events are those of the
+   value - StreamStart, an implicit DocumentStart, json_events v, DocumentEnd, StreamEnd. *)
+Theorem C13_text_events : forall v s, json_doc_text v s -> (json_depth v < 256)%nat ->
+  snd (run_str s) = PDone /\ evs_of (fst (run_str s)) = json_doc_events v.
+Proof. exact text_events. Qed.
+Print Assumptions C13_text_events.
+
+(* The scanner half alone: the scanner model, with any fuel unit F that covers the text (the pipeline uses 2 * length + 10),
+   ends normally with the tokens of the value between StreamStart and StreamEnd; the token count stays below the fuel the
+   pipeline gives the scanner. *)
+Theorem C13_scanner : forall v s, json_doc_text v s -> (json_depth v < 256)%nat ->
+  forall F, (2 * length s + 10 <= F)%nat ->
+  let '(toks, se) := scan_all str_ops F (4 * F + 20) (init_sc {| si_chars := s; si_look := 0 |}) [] in
+  map snd toks = wrap (json_tokens v) /\ se = SEnded /\ (length toks + 2 < 4 * F + 20)%nat.
+Proof. exact text_tokens. Qed.
+Print Assumptions C13_scanner.
+
+(* The induction behind it: inside a flow collection (flow level fl > 0, the enclosing levels holding the pending root key),
+   whatever the queue, the simple-key stack and the implicit-mapping states are, the scanner model run on whitespace w0, a
+   serialisation t of v, whitespace w1 and then ',' ']' or '}' queues exactly json_tokens v and stands before that
+   character (NodeScan, Proofs/JsonScanRun.v: runs of fetch_next_token while a token is needed). *)
+Theorem C13_scanner_node : forall v t, json_text v t -> NodeScan v t.
+Proof. exact node_scan. Qed.
+Print Assumptions C13_scanner_node.
+
+(* A JSON text denotes a well-formed value *)
+Theorem C13_text_wf : forall v t, json_text v t -> json_wf v = true.
+Proof. exact json_text_wf. Qed.
+Print Assumptions C13_text_wf.
+
+(* The same for one serialiser given as a FUNCTION (Spec/Json.v json_compact: no whitespace, the quote and the backslash escaped
+   with a backslash, control characters as \u00XX): every JSON value whose numbers are RFC 8259 numbers and whose strings hold
+   Unicode scalar values, nested less than 256 deep, loads from its compact text with its JSON meaning. *)
+Theorem C13_compact_is_text : forall v, json_wf v = true -> json_chars_ok v = true -> json_text v (json_compact v).
+Proof. exact json_compact_text. Qed.
+Print Assumptions C13_compact_is_text.
+Theorem C13_text_compact : forall v, json_wf v = true -> json_chars_ok v = true -> (json_depth v < 256)%nat ->
+  run_load (json_compact v) = LDocs [yaml_of_json v].
+Proof. exact compact_load. Qed.
+Print Assumptions C13_text_compact.
+(* the hypotheses are satisfiable, the compact text is what one expects, and the theorem's conclusion is what the model computes *)
+Example C13_compact_instance :
+  json_wf ex_value = true /\ json_chars_ok ex_value = true /\ (json_depth ex_value < 256)%nat
+  /\ json_compact ex_value
+     = [123;34;97;34;58;91;49;44;45;50;46;53;101;51;44;116;114;117;101;44;110;117;108;108;44;34;120;92;117;48;48;48;97;233;34;93;44;
+        34;98;34;58;123;125;44;34;97;34;58;102;97;108;115;101;125]%N
+  /\ run_load (json_compact ex_value) = LDocs [yaml_of_json ex_value].
+Proof. repeat split; vm_compute; try reflexivity; lia. Qed.
+(* a member name of 2000 characters inside nested arrays and objects (the 1024-character limit of /repo 57aa316 concerns the
+   implicit key of a flow-SEQUENCE entry; JSON arrays hold no "key: value" entry and the names of {...} members are unlimited) *)
+Example C13_long_member_name :
+  let k := repeat 107%N 2000 in
+  let v := JArr [JNum [48]%N; JArr [JObj [(k, JArr [JObj [(k, JStr k)]])]; JStr k]] in
+  run_load (json_compact v) = LDocs [yaml_of_json v].
+Proof. vm_compute. reflexivity. Qed.
+(* C13_text_full_proved applied (not computed): the text of C13_text_instance, and a text of the tab class *)
+Example C13_text_by_theorem :
+  run_load [91;49;32;44;10;34;97;92;110;92;117;48;48;101;57;34;93]%N = LDocs [yaml_of_json (JArr [JNum [49]%N; JStr [97;10;233]%N])]
+  /\ run_load [123;34;97;34;58;9;49;125]%N = LDocs [yaml_of_json (JObj [([97]%N, JNum [49]%N)])].
+Proof.
+  split; apply C13_text_full_proved; try (cbn; lia); [exact text_example|exact tab_text].
+Qed.
+
 Example C13_text_instance :
   json_doc_text (JArr [JNum [49]%N; JStr [97;10;233]%N]) [91;49;32;44;10;34;97;92;110;92;117;48;48;101;57;34;93]%N
   /\ run_load [91;49;32;44;10;34;97;92;110;92;117;48;48;101;57;34;93]%N = LDocs [yaml_of_json (JArr [JNum [49]%N; JStr [97;10;233]%N])].
 Proof. split; [exact text_example|vm_compute; reflexivity]. Qed.
 
-(* KNOWN FINDING (recorded in known_findings_c13.jsonl, not repaired): without the exclusion the statement is FALSE
-   on the unchanged tree.  The text {"a":<TAB>1} is a serialisation of {"a": 1} (valid JSON, depth 1) and is
-   REJECTED: the check "':' must be followed by a valid YAML whitespace" of fetch_value also fires in flow context.
-   The scanner model reproduces it (the implementation does too: ./check C13 prints the KNOWN-FINDING line). *)
-Theorem C13_text_refuted :
-  exists v s, json_doc_text v s /\ (json_depth v < 256)%nat /\ colon_tab Tout s = true /\ run_load s = LErr.
-Proof. exact text_refuted. Qed.
-Print Assumptions C13_text_refuted.
-(* with a space after the tab, or a quoted value after the tab, the same text loads *)
+(* FORMER FINDING colon-tab-scalar (known_findings_c13.jsonl: fixed by /repo b87c12b).  The text {"a":<TAB>1} is a
+   serialisation of {"a": 1} (valid JSON, depth 1); it used to be REJECTED ("':' must be followed by a valid YAML
+   whitespace": the tab check of fetch_value fired in flow context too).  Now the whole model pipeline loads it,
+   like every other text of the class (Spec/Json.v colon_tab: a ':' outside strings followed by TABs only and then
+   a number or literal); ./check C13 runs the class as a regression stream on the implementation. *)
+Example C13_tab_text : json_doc_text (JObj [([97]%N, JNum [49]%N)]) [123;34;97;34;58;9;49;125]%N
+                       /\ colon_tab Tout [123;34;97;34;58;9;49;125]%N = true.
+Proof. split; [exact tab_text|reflexivity]. Qed.
+Example C13_tab_ok : run_load [123;34;97;34;58;9;49;125]%N = LDocs [yaml_of_json (JObj [([97]%N, JNum [49]%N)])].
+Proof. exact (proj2 tab_text_loads). Qed.
+(* {"a":<TAB><TAB>true,"b":<TAB>-1.5e3,"c":[{"d":<TAB>null}]} *)
+Example C13_tab_ok2 :
+  run_load [123;34;97;34;58;9;9;116;114;117;101;44;34;98;34;58;9;45;49;46;53;101;51;44;34;99;34;58;91;123;34;100;34;58;9;110;117;108;108;125;93;125]%N
+  = LDocs [yaml_of_json (JObj [([97]%N, JBool true); ([98]%N, JNum [45;49;46;53;101;51]%N); ([99]%N, JArr [JObj [([100]%N, JNull)]])])].
+Proof. vm_compute. reflexivity. Qed.
+(* with a space after the tab, or a quoted value after the tab, the same text loads (it always did) *)
 Example C13_tab_space_ok : run_load [123;34;97;34;58;9;32;49;125]%N = LDocs [yaml_of_json (JObj [([97]%N, JNum [49]%N)])].
 Proof. vm_compute. reflexivity. Qed.
